@@ -124,6 +124,42 @@ class Prover:
                             out.add(p)
         return out
 
+    def vacuous(self):
+        """the facts bound some term by integer constants that leave no value (e.g. 0 < x and x < 1): the case is infeasible"""
+        v = getattr(self, '_vac', None)
+        if v is not None:
+            return v
+        lo, hi, ne = {}, {}, {}
+        for f in self.facts:
+            if len(f) != 3 or f[0] not in ('lt', 'le', 'eq', 'ne'):
+                continue
+            a, b = f[1], f[2]
+            if not (isinstance(a, tuple) and isinstance(b, tuple)):
+                continue
+            if f[0] in ('lt', 'le'):
+                if is_c(a) and not is_c(b):
+                    lo[b] = max(lo.get(b, 0), a[1] + (1 if f[0] == 'lt' else 0))
+                elif is_c(b) and not is_c(a):
+                    hi[a] = min(hi.get(a, 1 << 70), b[1] - (1 if f[0] == 'lt' else 0))
+            elif f[0] == 'eq':
+                for x, y in ((a, b), (b, a)):
+                    if is_c(x) and not is_c(y):
+                        lo[y] = max(lo.get(y, 0), x[1])
+                        hi[y] = min(hi.get(y, 1 << 70), x[1])
+        v = any(k in hi and hi[k] < lo[k] for k in lo)
+        self._vac = v
+        return v
+
+    def const_of(self, d):
+        """d == c follows from an equality fact"""
+        for f in self.facts:
+            if f[0] == 'eq' and len(f) == 3:
+                if f[1] == d and is_c(f[2]):
+                    return f[2]
+                if f[2] == d and is_c(f[1]):
+                    return f[1]
+        return None
+
     # ------------------------------------------------------------------ divisibility among powers of two
     def divides(self, d, e, depth=0):
         """d | e  for powers of two d, e  (equivalently d <= e)"""
@@ -178,6 +214,10 @@ class Prover:
             return False
         if d == C(1):
             return True
+        if not is_c(d):
+            dc = self.const_of(d)
+            if dc is not None:
+                return self._aligned(t, dc, depth + 1)
         if is_c(t) and is_c(d):
             return d[1] > 0 and t[1] % d[1] == 0
         if is_c(t) and t[1] == 0:
@@ -244,6 +284,8 @@ class Prover:
                 if p in skip:
                     continue
                 sub = Prover(self.I, self.facts | set(pf.get(p, ())), self.use_J, self.ax, self.max_depth, self.footer_align, self.level + 1)
+                if sub.vacuous():
+                    continue
                 if not sub.aligned(x, d, depth + 1):
                     return False
             return True
@@ -286,6 +328,8 @@ class Prover:
                     ok = True
                     for p, x in ph[2]:
                         sub = Prover(self.I, self.facts | set(pf.get(p, ())), self.use_J, self.ax, self.max_depth, self.footer_align, self.level + 1)
+                        if sub.vacuous():
+                            continue
                         if not sub.eq(x, other, 1):
                             ok = False
                             break
@@ -497,6 +541,8 @@ class Prover:
                     if p in skip:
                         continue
                     sub = Prover(self.I, self.facts | set(pf.get(p, ())), self.use_J, self.ax, self.max_depth, self.footer_align, self.level + 1)
+                    if sub.vacuous():
+                        continue
                     nd = dict(d)
                     del nd[k]
                     xd, xc = lin(sub.norm(x))
